@@ -22,7 +22,7 @@ RULE = ("field part: operands from structured bit patterns (0, 1, z^(m-1), all-o
         "curve part: points O (three encodings), the point of order two, points of order four where they exist, "
         "odd-order subgroup points, points outside the subgroup, P=Q, P=-Q, written raw in affine, Lopez-Dahab "
         "projective (random Z and Z=1) and lambda coordinates; outputs read raw and normalised by the model. "
-        "mul part: base points [s]G + [t]T with known (s,t), scalars 0, +-1, 2, n-1, n, n+1, 2n, kn+-1, 2^k, 2^k-1, "
+        "mul part: base points [s]G + [t]T with known (s,t), result separate and in place (r == p, r == q), scalars 0, +-1, 2, n-1, n, n+1, 2n, kn+-1, 2^k, 2^k-1, "
         "alternating, negative, up to the bn capacity; verdict policy of DESIGN 3/C03: 0 <= k < n must give [k]P "
         "without error, any other scalar may give [k]P or raise an error. "
         "A case is non-trivial when no operand is zero/identity; distinct = distinct (key, inputs)")
@@ -1754,14 +1754,17 @@ class MulPart(PointIO):
         self.ctx.note("tnaf_longest_lengths_found", {str(l): 1 for l, _ in top})
         return [k for _, k in top]
 
-    def mul_case(self, cv, fn, d, k, force=False):
+    def mul_case(self, cv, fn, d, k, force=False, alias=None):
+        """r = [k]P with a separate result object (sep) or in place, r == p (inp)"""
         ctx, R, B = self.ctx, self.R, self.B
+        if alias is None:
+            alias = self.rng.random() < 0.5
         impl = impl_of(R, fn)
         k = self.tame(cv, d, k)
         if not force and self.tnaf_confined(cv, impl, k):
             self.stepped += 1
             return
-        key = "%s|%s|%s|%s" % (impl, cv.tag, cv.pcls(d), self.kc(cv, d, k))
+        key = "%s|%s|%s|%s|%s" % (impl, cv.tag, cv.pcls(d), "inp" if alias else "sep", self.kc(cv, d, k))
         with Case(ctx, key, {"P": dshow(d), "k": hx(k), "via": fn},
                   nontrivial=cv.pcls(d) != "inf" and k % cv.n != 0) as go:
             if go:
@@ -1769,9 +1772,11 @@ class MulPart(PointIO):
                 B.eb_fill(self.r, R.poison)
                 R.bn_put(self.k, k)
                 raw = B.eb_get(self.p)
-                res = R.call(fn, self.r, self.p, self.k)
-                self.judge(cv, res, self.r, cv.aff(cv.dmul(k, d)), cv.in_range(k))
-                ctx.check(B.eb_get(self.p) == raw and R.bn_val(self.k) == k, ctx.cur_key + "|input-modified")
+                out = self.p if alias else self.r
+                res = R.call(fn, out, self.p, self.k)
+                self.judge(cv, res, out, cv.aff(cv.dmul(k, d)), cv.in_range(k))
+                ctx.check((alias or B.eb_get(self.p) == raw) and R.bn_val(self.k) == k,
+                          ctx.cur_key + "|input-modified")
 
     def gen_case(self, cv, k):
         ctx, R, B = self.ctx, self.R, self.B
@@ -1783,16 +1788,19 @@ class MulPart(PointIO):
                 res = R.call("eb_mul_gen", self.r, self.k)
                 self.judge(cv, res, self.r, cv.aff(cv.dmul(k, (1, 0))), cv.in_range(k))
 
-    def dig_case(self, cv, d, k):
+    def dig_case(self, cv, d, k, alias=None):
         ctx, R, B = self.ctx, self.R, self.B
+        if alias is None:
+            alias = self.rng.random() < 0.5
         kc = "z" if k == 0 else ("u" if k == 1 else ("top" if k >> (R.DIG - 1) else "d"))
-        key = "eb_mul_dig|%s|%s|%s" % (cv.tag, cv.pcls(d), kc)
+        key = "eb_mul_dig|%s|%s|%s|%s" % (cv.tag, cv.pcls(d), "inp" if alias else "sep", kc)
         with Case(ctx, key, {"P": dshow(d), "k": hx(k)}, nontrivial=cv.pcls(d) != "inf" and k != 0) as go:
             if go:
                 self.put(cv, self.p, cv.aff(d), "B")
                 B.eb_fill(self.r, R.poison)
-                res = R.call("eb_mul_dig", self.r, self.p, k)
-                self.judge(cv, res, self.r, cv.aff(cv.dmul(k, d)), True)
+                out = self.p if alias else self.r
+                res = R.call("eb_mul_dig", out, self.p, k)
+                self.judge(cv, res, out, cv.aff(cv.dmul(k, d)), True)
 
     # ------------------------------------------------------------------ fixed base
     def fix_variants(self):
@@ -1843,7 +1851,7 @@ class MulPart(PointIO):
                 self.judge(cv, res, self.r, cv.aff(cv.dmul(k, d)), cv.in_range(k))
 
     # ------------------------------------------------------------------ simultaneous
-    def sim_case(self, cv, fn, d, e, rel, k, m, force=False):
+    def sim_case(self, cv, fn, d, e, rel, k, m, force=False, alias=None):
         ctx, R, B = self.ctx, self.R, self.B
         impl = impl_of(R, fn)
         gen = impl == "eb_mul_sim_gen"
@@ -1862,7 +1870,13 @@ class MulPart(PointIO):
             if self.tnaf_confined(cv, impl, k, m):
                 self.stepped += 1
                 return
-        key = "%s|%s|%s:%s|%s" % (impl, cv.tag, rel, kind, sc)
+        if alias is None:
+            alias = self.rng.choice([0, 0, 1, 2, 3])
+        if gen and alias in (1, 3):
+            alias = 2
+        if alias == 3 and (d[0] % cv.n, d[1] % cv.h) != (e[0] % cv.n, e[1] % cv.h):
+            alias = 1
+        key = "%s|%s|%s:%s|alias%d|%s" % (impl, cv.tag, rel, kind, alias, sc)
         with Case(ctx, key, {"P": dshow(d), "Q": dshow(e), "k": hx(k), "m": hx(m), "via": fn},
                   nontrivial=live and k % cv.n != 0 and m % cv.n != 0) as go:
             if go:
@@ -1871,12 +1885,14 @@ class MulPart(PointIO):
                 B.eb_fill(self.r, R.poison)
                 R.bn_put(self.k, k)
                 R.bn_put(self.m, m)
+                out = {1: self.p, 2: self.q}.get(alias, self.r)
+                pq = self.p if alias == 3 else self.q
                 if gen:
-                    res = R.call(fn, self.r, self.k, self.q, self.m)
+                    res = R.call(fn, out, self.k, pq, self.m)
                 else:
-                    res = R.call(fn, self.r, self.p, self.k, self.q, self.m)
+                    res = R.call(fn, out, self.p, self.k, pq, self.m)
                 exp = cv.aff(cv.dadd(cv.dmul(k, d), cv.dmul(m, e)))
-                self.judge(cv, res, self.r, exp, cv.in_range(k) and cv.in_range(m))
+                self.judge(cv, res, out, exp, cv.in_range(k) and cv.in_range(m))
 
     def sim_points(self, cv):
         rng = self.rng
@@ -1940,17 +1956,19 @@ class MulPart(PointIO):
         for k in ds:
             for fn in muls:
                 for d in ((1, 0), rp):
-                    if ctx.mine(i):
-                        self.mul_case(cv, fn, d, k)
-                    i += 1
+                    for alias in (False, True):
+                        if ctx.mine(i):
+                            self.mul_case(cv, fn, d, k, alias=alias)
+                        i += 1
             if ctx.mine(i):
                 self.gen_case(cv, k)
             i += 1
         for k in (0, 1, 2, 3, 255, (1 << R.DIG) - 1, 1 << (R.DIG - 1)):
             for d in ((1, 0), rp, (0, 0), (0, cv.h // 2)):
-                if ctx.mine(i):
-                    self.dig_case(cv, d, k)
-                i += 1
+                for alias in (False, True):
+                    if ctx.mine(i):
+                        self.dig_case(cv, d, k, alias=alias)
+                    i += 1
         for pre, fix, size in fixes:
             if ctx.mine(i):
                 for d in ((1, 0), rp):
@@ -1993,7 +2011,7 @@ class MulPart(PointIO):
             for fn in muls:
                 for k in (1, 2, 3, cv.n - 1, rng.randrange(1, cv.n), cv.n, -1):
                     if ctx.mine(i):
-                        self.mul_case(cv, fn, d, k)
+                        self.mul_case(cv, fn, d, k, alias=bool((i // ctx.nshards) & 1))
                     i += 1
         small = [0, 1, -1, 2, cv.n - 1, cv.n, rng.randrange(1, cv.n), (1 << self.B.m) + 9, (1 << (self.B.m + 30)) + 9]
         for fn in sims:
@@ -2003,7 +2021,7 @@ class MulPart(PointIO):
                 for k in small:
                     for m in small:
                         if ctx.mine(i) and {cv.krange(k), cv.krange(m)} != {"xl", "xh"}:
-                            self.sim_case(cv, fn, d, e, rel, k, m)
+                            self.sim_case(cv, fn, d, e, rel, k, m, alias=(i // ctx.nshards) % 4)
                         i += 1
         # ---- random
         ops = ["mul"] * 10 + ["gen"] * 2 + ["dig"] + ["fix"] * 6 + ["sim"] * 8
